@@ -1,3 +1,27 @@
-(* C20 — deciding obligations (stub, being built). *)
+(* C20 — deciding obligations. Statements only, closed by the lemmas proved in Async/*Proofs.v. *)
 From Coq Require Import ZArith List Bool.
-From VF Require Import Async.Collector.
+From VF Require Import Async.Collector Async.CollectorProofs.
+Import ListNotations.
+
+(* ---- Collector.collect_async: for every concurrency, budget, next_job oracle and completion schedule ---- *)
+
+(* at every point of the run (every prefix p of the trace): sampler calls in flight <= concurrency, and the loop's own
+   count of running jobs (taken, result not yet consumed) <= concurrency *)
+Theorem C20_collector_concurrency : forall conc budget orc sched p s,
+  trace (run conc budget orc sched) = p ++ s ->
+  n_start p <= n_done p + conc /\ n_take p <= n_result p + conc /\ n_result p <= n_done p <= n_start p.
+Proof. exact collector_concurrency. Qed.
+Print Assumptions C20_collector_concurrency.
+
+(* a job is started only while the samples requested by the jobs started before it are below max_total_samples *)
+Theorem C20_collector_budget : forall conc b orc sched p sid tg r s,
+  trace (run conc (Some b) orc sched) = p ++ ETake sid tg r :: s -> (charged p < b)%Z.
+Proof. exact collector_budget. Qed.
+Print Assumptions C20_collector_budget.
+
+(* non-vacuity: a run that starts three jobs under concurrency 2 and budget 5, completing out of order *)
+Example C20_collector_example :
+  trace (run 2 (Some 5%Z) [[mkjob 10 2%Z; mkjob 11 2%Z]; [mkjob 12 2%Z; mkjob 13 2%Z]] [[(1, Ok 7%Z)]; [(0, Ok 8%Z); (0, Ok 9%Z)]])
+  = [EAsk [10; 11]; ETake 0 10 2%Z; ETake 1 11 2%Z; EStart 0; EStart 1; EDone 1 (Ok 7%Z); EResult 1 11 7%Z;
+     EAsk [12; 13]; ETake 2 12 2%Z; EStart 2; EDone 0 (Ok 8%Z); EDone 2 (Ok 9%Z); EResult 0 10 8%Z; EResult 2 12 9%Z; EHalt].
+Proof. vm_compute. reflexivity. Qed.
